@@ -9,6 +9,8 @@ open Zc Zc.Wire Zc.Wire.Strict
 labels (implied by the 253-character limit), at most 253 characters -/
 def WFName (n : WName) : Prop := n ≠ [] ∧ (∀ l ∈ n, WFLabel l) ∧ n.length ≤ 128 ∧ nameLen n ≤ 253
 
+instance (n : WName) : Decidable (WFName n) := by unfold WFName; infer_instance
+
 /-- every entry of the table is decodable in `buf` -/
 def NamesGood (buf : Bytes) (names : Names) : Prop := ∀ p ∈ names, GoodBefore buf.length buf p
 
@@ -49,6 +51,8 @@ theorem classField_eq (c : Nat) (u m : Bool) (hc : c < 32768) : classField c u m
 
 /-- questions inside the quantifier -/
 def WFQuestion (q : EQuestion) : Prop := WFName q.name ∧ q.qtype < 65536 ∧ q.qclass < 32768
+
+instance (q : EQuestion) : Decidable (WFQuestion q) := by unfold WFQuestion; infer_instance
 
 theorem encQuestion_spec (mc : Bool) (pre : Bytes) (names names' : Names) (out : Bytes) (q : EQuestion)
     (h12 : 12 ≤ pre.length) (hg : NamesGood pre names) (hwf : WFQuestion q)
@@ -102,6 +106,10 @@ def WFRData (rtype : Nat) : ERData → Prop
   | .srv p w q t => rtype = 33 ∧ p < 65536 ∧ w < 65536 ∧ q < 65536 ∧ WFName t
   | .hinfo c o => rtype = 13 ∧ c.length ≤ 255 ∧ o.length ≤ 255
   | .nsec n ts => rtype = 47 ∧ WFName n ∧ WFTypes ts
+
+instance (ts : List Nat) : Decidable (WFTypes ts) := by unfold WFTypes; infer_instance
+
+instance (t : Nat) (rd : ERData) : Decidable (WFRData t rd) := by cases rd <;> unfold WFRData <;> infer_instance
 
 theorem charStringOf_ok {s b : Bytes} (hs : s.length ≤ 255) (h : charStringOf s = .ok b) : b = s.length.toUInt8 :: s := by
   unfold charStringOf at h
@@ -252,6 +260,8 @@ theorem encRData_spec (pre : Bytes) (names names' : Names) (out : Bytes) (rd : E
 /-- records inside the quantifier -/
 def WFRec (r : ERecord) (now : Ms) : Prop :=
   WFName r.name ∧ r.rtype < 65536 ∧ r.rclass < 32768 ∧ wireTtl r now < 4294967296 ∧ WFRData r.rtype r.rdata
+
+instance (r : ERecord) (now : Ms) : Decidable (WFRec r now) := by unfold WFRec; infer_instance
 
 theorem ttlField_eq (r : ERecord) (now : Ms) : 0 ≤ ttlField r now ∧ (ttlField r now).toNat = wireTtl r now := by
   unfold ttlField wireTtl
